@@ -57,7 +57,7 @@ PROPS = {
     },
     "C17": {
         "level": "other",
-        "explanation": "Narrow claim on the hash-table representation of mappings and sets, decided by Verus contracts on real text (the structs, KeyLocation and the bucket aliases are the real definitions). (1) Lookup: XMapping::locate and XSet::locate answer Vacant exactly when the table has no bucket for the key's hash, and otherwise the outcome of scanning THAT bucket in order with the user's equality: Found at the first index whose key is equal, the error value of the first comparison that fails before that, Missing when none is equal; an error value or an out-of-range answer of the hash function is the result as an error value. (2) Insertion / overwrite: XMapping::try_put_located stores the callback's value at a valid location -- Found: the pair keeps its key and gets the value, nothing else changes, len unchanged; Missing: (k, v) appended to the bucket, len + 1; Vacant: a new bucket, len + 1; an error value or violation of the callback is handed on and NOTHING changes -- and put_located / put / try_put do the same through locate; XMapping::get reads the value at a location. (3) Bulk update: XSet::with_update and XMapping::with_update (whole bodies, loop invariant) return a NEW collection that satisfies the representation invariant (len is the number of stored entries, every key lies in the bucket of its own hash, no empty bucket), retains every key of the receiver in place, holds every item afterwards, adds a key only when equality answered false for every key stored before it in its bucket (no duplicates), and -- for mappings -- stores for every key the receiver's value or the value of an item that hit it, the most recent item being what a lookup of its key finds (last one wins). NOT decided: removal, the natives around these methods, the set algebra and the helpers written in the xray language, consistency requirements on the user's hash / eq (the contracts hold for ANY hash / eq that answer an Int / a Bool).",
+        "explanation": "Narrow claim on the hash-table representation of mappings and sets, decided by Verus contracts on real text (the structs, KeyLocation and the bucket aliases are the real definitions). (1) Lookup: XMapping::locate and XSet::locate answer Vacant exactly when the table has no bucket for the key's hash, and otherwise the outcome of scanning THAT bucket in order with the user's equality: Found at the first index whose key is equal, the error value of the first comparison that fails before that, Missing when none is equal; an error value or an out-of-range answer of the hash function is the result as an error value. (2) Insertion / overwrite: XMapping::try_put_located stores the callback's value at a valid location -- Found: the pair keeps its key and gets the value, nothing else changes, len unchanged; Missing: (k, v) appended to the bucket, len + 1; Vacant: a new bucket, len + 1; an error value or violation of the callback is handed on and NOTHING changes -- and put_located / put / try_put do the same through locate; XMapping::get reads the value at a location. (3) Bulk update: XSet::with_update and XMapping::with_update (whole bodies, loop invariant) return a NEW collection that satisfies the representation invariant (len is the number of stored entries, every key lies in the bucket of its own hash), retains every key of the receiver in place, holds every item afterwards, adds a key only when equality answered false for every key stored before it in its bucket (no duplicates), and -- for mappings -- stores for every key the receiver's value or the value of an item that hit it, the most recent item being what a lookup of its key finds (last one wins). NOT decided: removal, the natives around these methods, the set algebra and the helpers written in the xray language, consistency requirements on the user's hash / eq (the contracts hold for ANY hash / eq that answer an Int / a Bool).",
         "units": [
             {"kind": "verus", "unit": "locate"},
             {"kind": "verus", "unit": "slocate"},
